@@ -4,6 +4,9 @@ import (
 	"errors"
 	"fmt"
 	"io"
+	"net"
+	"syscall"
+	"time"
 
 	"github.com/talostrading/sonic"
 	"github.com/talostrading/sonic/codec/frame"
@@ -29,7 +32,108 @@ func connErrClass(err error) int {
 	}
 }
 
+// runCodecConnReal: the same CodecConn over a real sonic.Conn (TCP, loopback) with a small send buffer: a large item is written
+// in many kernel segments, with would-block in the middle of the item several times. Every operation runs to completion
+// (poll + peer drain), so the observations are those of a transport that accepts everything.
+func runCodecConnReal(c *Case) []string {
+	ioc := sonic.MustIO()
+	defer ioc.Close()
+	ln, err := net.Listen("tcp", "127.0.0.1:0")
+	if err != nil {
+		panic(err)
+	}
+	defer ln.Close()
+	sc, err := sonic.Dial(ioc, "tcp", ln.Addr().String())
+	if err != nil {
+		panic(err)
+	}
+	defer sc.Close()
+	peer, err := ln.Accept()
+	if err != nil {
+		panic(err)
+	}
+	defer peer.Close()
+	_ = syscall.SetsockoptInt(sc.RawFd(), syscall.SOL_SOCKET, syscall.SO_SNDBUF, 16384)
+	src := sonic.NewByteBuffer()
+	dst := sonic.NewByteBuffer()
+	codec := frame.NewCodec(src)
+	conn, _ := sonic.NewCodecConn[[]byte, []byte](sc, codec, src, dst)
+	var events []string
+	var wire []byte
+	rcalls, wcalls := 0, 0
+	drain := func(wait time.Duration) {
+		buf := make([]byte, 1<<16)
+		for {
+			_ = peer.SetReadDeadline(time.Now().Add(wait))
+			n, err := peer.Read(buf)
+			wire = append(wire, buf[:n]...)
+			if err != nil || n == 0 {
+				return
+			}
+		}
+	}
+	tail := func() string {
+		s := ""
+		for _, e := range events {
+			s += " " + e
+		}
+		events = nil
+		w := wire
+		wire = nil
+		return fmt.Sprintf("%s wire=%s dst=%d:%d cap=%d", s, bytesRepr(w), dst.ReadLen(), dst.WriteLen(), src.Cap())
+	}
+	return runOps(c, func(op string, a []string) string {
+		switch op {
+		case "in":
+			if _, err := peer.Write(unhex(a[0])); err != nil {
+				panic(err)
+			}
+			time.Sleep(2 * time.Millisecond)
+			_, _ = ioc.PollOne()
+			return "u" + tail()
+		case "areadnext":
+			before := rcalls
+			conn.AsyncReadNext(func(err error, item []byte) {
+				rcalls++
+				if err != nil {
+					events = append(events, fmt.Sprintf("rcb=err:%d", connErrClass(err)))
+				} else {
+					events = append(events, "rcb=item:"+bytesRepr(item))
+				}
+			})
+			if rcalls == before {
+				return "pending" + tail()
+			}
+			return "done" + tail()
+		case "awritepat":
+			p := patternBytes(atoi(a[1]), atoi(a[0]))
+			before := wcalls
+			conn.AsyncWriteNext(p, func(err error, n int) {
+				wcalls++
+				events = append(events, fmt.Sprintf("wcb=%d:%d", n, connErrClass(err)))
+			})
+			for i := 0; wcalls == before && i < 20000; i++ {
+				drain(time.Millisecond)
+				_, _ = ioc.PollOne()
+			}
+			// what was accepted has to arrive
+			for deadline := time.Now().Add(2 * time.Second); len(wire) < len(p)+4 && time.Now().Before(deadline); {
+				drain(2 * time.Millisecond)
+			}
+			drain(3 * time.Millisecond)
+			if wcalls == before {
+				return "pending" + tail()
+			}
+			return "done" + tail()
+		}
+		panic("unknown op " + op)
+	})
+}
+
 func runCodecConn(c *Case) []string {
+	if c.Int("real", 0) == 1 {
+		return runCodecConnReal(c)
+	}
 	src := sonic.NewByteBuffer()
 	dst := sonic.NewByteBuffer()
 	ms := newMemStream()
